@@ -150,6 +150,17 @@ func TestVerifH10(t *testing.T) {
 			}
 		}
 	}
+	// replies announcing the largest bodies a STUN header can (lengths whose sum with the header size does not fit
+	// 16 bits): read whole, never a crash, the tail stays for the application
+	for _, l := range []int{0xFFE8, 0xFFEC, 0xFFF0, 0xFFFC} {
+		big := make([]byte, 20+l+5)
+		copy(big, replies["success"][:20])
+		big[2], big[3] = byte(l>>8), byte(l)
+		copy(big[20+l:], "tail!")
+		h10One(vt, alloc, [][]byte{big}, "huge")
+		h10One(vt, alloc, [][]byte{big[:19], big[19:40000], big[40000:]}, "huge")
+		h10One(vt, alloc, [][]byte{big[:20+l-1]}, "huge-truncated")
+	}
 	// truncated and non-STUN replies
 	h10One(vt, alloc, [][]byte{replies["success"][:10]}, "truncated")
 	h10One(vt, alloc, [][]byte{replies["success-attr"][:25]}, "truncated")
